@@ -19,24 +19,27 @@ template<> struct Delegate<int, photon::rpc::OutOfOrderContext*> : public Delega
     template<class...A> void bind(A&&...) { }      // only used by the example code in the header
 };
 // Stand-in for the engine's std::unordered_map<tag, context*> (libstdc++ container code is outside the property; the real hash
-// table costs > 100 k symbolic-execution steps per insert): a 4-slot array with the same lookup / insert / erase contract.
+// table costs > 100 k symbolic-execution steps per insert): a small array (one slot per caller) with the same lookup / insert / erase contract.
+#ifndef MAPSLOTS
+#define MAPSLOTS 2
+#endif
 namespace std {
 template<> class unordered_map<uint64_t, photon::rpc::OutOfOrderContext*> {
 public:
     struct Slot { bool used; uint64_t first; photon::rpc::OutOfOrderContext* second; };
     typedef Slot* iterator;
-    Slot s[4];
-    unordered_map() { for (int i = 0; i < 4; i++) { s[i].used = false; s[i].first = 0; s[i].second = nullptr; } }
-    iterator end() { return s + 4; }
-    iterator find(uint64_t k) { for (int i = 0; i < 4; i++) if (s[i].used && s[i].first == k) return &s[i]; return end(); }
+    Slot s[MAPSLOTS];
+    unordered_map() { for (int i = 0; i < MAPSLOTS; i++) { s[i].used = false; s[i].first = 0; s[i].second = nullptr; } }
+    iterator end() { return s + MAPSLOTS; }
+    iterator find(uint64_t k) { for (int i = 0; i < MAPSLOTS; i++) if (s[i].used && s[i].first == k) return &s[i]; return end(); }
     std::pair<iterator, bool> insert(std::pair<uint64_t, photon::rpc::OutOfOrderContext*> v) {
         iterator f = find(v.first); if (f != end()) return {f, false};
-        for (int i = 0; i < 4; i++) if (!s[i].used) { s[i].used = true; s[i].first = v.first; s[i].second = v.second; return {&s[i], true}; }
+        for (int i = 0; i < MAPSLOTS; i++) if (!s[i].used) { s[i].used = true; s[i].first = v.first; s[i].second = v.second; return {&s[i], true}; }
         __CPROVER_assume(false); return {end(), false};
     }
     size_t erase(uint64_t k) { iterator f = find(k); if (f == end()) return 0; f->used = false; return 1; }
     iterator erase(iterator it) { it->used = false; return it + 1; }
-    size_t size() const { size_t n = 0; for (int i = 0; i < 4; i++) if (s[i].used) n++; return n; }
+    size_t size() const { size_t n = 0; for (int i = 0; i < MAPSLOTS; i++) if (s[i].used) n++; return n; }
 };
 }
 #include "rpc/out-of-order-execution.cpp"
